@@ -127,7 +127,7 @@ int  sched_thread_done(int tid);
 
 /* ---------------------------------------------------------------- vfs */
 void vfs_reset(void);
-struct VfsStats { long opens, closes, double_closes, foreign_closes, use_after_close,
+struct VfsStats { long opens, closes, double_closes, foreign_closes, null_closes, use_after_close, null_uses,
                   reads, writes, seeks, faults_fired; };
 extern struct VfsStats vfs_stats;
 
